@@ -8,6 +8,7 @@ import Gpc.Driver.Map
 import Gpc.Driver.Array
 import Gpc.Driver.Str
 import Gpc.Driver.CaseMap
+import Gpc.Driver.TestFw
 open Gpc.Proto
 
 /-- state of the stateful models (one operation script at a time) -/
@@ -28,6 +29,7 @@ def dispatch (st : St) (toks : List String) : St × String :=
   | "sc" :: rest => let (a, o) := Gpc.Driver.scopeStep st.scopes rest; ({ st with scopes := a }, o)
   | "map" :: rest => let (a, o) := Gpc.Driver.mapStep st.map rest; ({ st with map := a }, o)
   | "arr" :: rest => let (a, o) := Gpc.Driver.arrStep st.arr rest; ({ st with arr := a }, o)
+  | "tf" :: rest => (st, Gpc.Driver.tfStep rest)
   | "case" :: rest => (st, Gpc.Driver.caseStep rest)
   | "str" :: rest => let (a, o) := Gpc.Driver.strStep st.str rest; ({ st with str := a }, o)
   | _ => (st, "bad-op")
